@@ -6,7 +6,7 @@ package utils
 //@ pure func asciiLower(c int) int = ite('A' <= c && c <= 'Z', c + 32, c)
 
 //@ func CaseInsensitiveCompare(a, b) r
-//@   props C01
+//@   props C01, C11
 //@   replay-go lower := func(c byte) byte { if c >= 'A' && c <= 'Z' { return c + 32 }; return c }; ref := func(a, b []byte) bool { if len(a) != len(b) { return false }; for i := range a { if lower(a[i]) != lower(b[i]) { return false } }; return true }; cases := [][2]string{{"Tran\xc5\xbffer-Encoding", "Transfer-Encoding"}, {"\xe2\x84\xaa", "k"}, {"\x00", " "}, {"Content-Length", "content-length"}, {"a", "A"}, {"[", "{"}, {"@", "`"}, {"ab", "a"}}; for _, c := range cases { if got := CaseInsensitiveCompare([]byte(c[0]), []byte(c[1])); got != ref([]byte(c[0]), []byte(c[1])) { fmt.Printf("VCGO-VIOLATED CaseInsensitiveCompare(%q, %q) = %v, ASCII-case-insensitive equality says %v\n", c[0], c[1], got, !got); return } }; for x := 0; x < 256; x++ { for y := 0; y < 256; y++ { a, b := []byte{byte(x)}, []byte{byte(y)}; if CaseInsensitiveCompare(a, b) != ref(a, b) { fmt.Printf("VCGO-VIOLATED CaseInsensitiveCompare(%q, %q) = %v\n", a, b, !ref(a, b)); return } } }
 //@   top-ensures r == (len(a) == len(b) && forall(k, 0, len(a), asciiLower(a[k]) == asciiLower(b[k])))
 //@   loop 0:
@@ -16,7 +16,7 @@ package utils
 
 // ParseChunkSize: hex number, optional spaces, CR LF. A successful result is never negative.
 //@ func ParseChunkSize(r) n, err
-//@   props C01, C03, C14
+//@   props C01, C03, C14, C02, C11
 //@   requires r != nil
 //@   modifies r.pos, r.avail, r.failed, mem
 //@   allocates
@@ -25,14 +25,14 @@ package utils
 //@     invariant n >= 0 && n < 1152921504606846976
 
 //@ func SkipCRLF(reader) err
-//@   props C03, C14
+//@   props C03, C14, C01, C02, C11
 //@   requires reader != nil
 //@   modifies reader.pos, reader.avail, reader.failed, mem
 //@   allocates
 
 // NormalizeHeaderKey rewrites letter case in place: only bytes of b change, and only their case.
 //@ func NormalizeHeaderKey(b, disableNormalizing)
-//@   props C02, C03
+//@   props C02, C03, C01, C11
 //@   modifies bytes(b)
 //@   top-ensures forall(k, 0, len(b), asciiLower(b[k]) == asciiLower(old(b[k])))
 //@   loop 0:
